@@ -383,7 +383,7 @@ static void run_c(uint64_t idx)
 static uint64_t ncases(void)
 {
     build_m_set();
-    a1_chunks = vrt_thorough ? ((size_t)1 << 25) / CHUNK_K + 1 : ((size_t)1 << 23) / CHUNK_K;
+    a1_chunks = vrt_thorough ? ((size_t)1 << 25) / CHUNK_K + 1 : ((size_t)1 << 24) / CHUNK_K;
     a2_cases = vrt_thorough ? 256 : 32;
     a3_cases = vrt_thorough ? 1024 : 64;
     adiv_cases = vrt_thorough ? 64 : 16;
